@@ -381,3 +381,33 @@ class MethodP(Contract):
             out.append(('stores_kernel_result_' + nm, bool(isinstance(me[nm], ArrV) and me[nm].buf == o.buf)))
             out.append(('operand_unchanged_' + nm, st.heap[c.f2[nm].buf].data is c.olddata2[nm] and st.heap[c.rec2.id][nm].buf == c.f2[nm].buf))
         return out
+
+
+class DiscPlottableP(Contract):
+    """DiscreteFunc.get_plottable_data() without smoothing window, any number of events (C11): the event times and
+    value / multiplicity per entry."""
+    rel, cls, func = 'pyspike/DiscreteFunc.py', 'DiscreteFunc', 'get_plottable_data'
+    uf_arith = True
+
+    def setup(self, mode, size, values=None):
+        if mode != 'P':
+            raise NotImplementedError("bounded stand-in: disc_plot.B")
+        st = State()
+        n = z3.Int('n')
+        f = {'__local__': False}
+        for nm in ('x', 'y', 'mp'):
+            f[nm] = in_array(st, nm, n + 2, mode)
+        st.vars['self'] = st.new_rec(self.cls, f)
+        A = {k: st.acc(v) for k, v in f.items() if k != '__local__'}
+        m = toI(A['x'].n)
+        k = fresh('kp', I)
+        from ..sym import uf_axioms
+        pre = [n >= 0, z3.ForAll([k], z3.Implies(z3.And(0 <= k, k < m), A['mp'][k] > 0))] + uf_axioms()
+        return st, pre, Ctx(mode=mode, n=n, A=A, m=m, inputs={}, argorder=[])
+
+    def posts(self, st, ret, c):
+        xp, yp = ret
+        A, m = c.A, c.m
+        return [('shape', z3.And(toI(xp.n) == m, toI(yp.n) == m)),
+                ('times', forall(0, m, lambda k: split(st.elem(xp, k))[0] == A['x'][k])),
+                ('values', forall(0, m, lambda k: z3.And(split(st.elem(yp, k))[0] == split(arith('/', A['y'][k], A['mp'][k]))[0], toB(split(st.elem(yp, k))[1]))))]
